@@ -35,6 +35,7 @@ type Sim struct {
 	objs  []*objRT
 
 	tearing    atomic.Bool
+	lean       bool
 	teardownCh chan struct{}
 	diceIdx    int
 	nextObj    int
@@ -58,6 +59,8 @@ type instRT struct {
 	watchOrd   int
 	watchCalls int
 	healthN    int
+	healthNA   atomic.Int64 // lean mode
+	curObj     atomic.Pointer[objRT]
 	startSem   chan struct{}
 }
 
@@ -164,16 +167,36 @@ func (s *Sim) newObject(in *instRT) *objRT {
 	s.mu.Lock()
 	s.objs = append(s.objs, o)
 	in.objs = append(in.objs, o)
+	in.curObj.Store(o)
 	s.mu.Unlock()
 	return o
 }
 
 func (s *Sim) registerCallbacks(o *objRT) {
 	sp := o.in.spec
+	if s.lean {
+		o.el.OnPromote(func(ctx context.Context, token string) {
+			switch sp.Promote {
+			case 1:
+				select {
+				case <-ctx.Done():
+				case <-s.teardownCh:
+				}
+			case 2:
+				for i := 0; i < 40 && ctx.Err() == nil; i++ {
+					if s.sleepOrCtx(ctx, s.plan.H/3) {
+						break
+					}
+				}
+			}
+		})
+		o.el.OnDemote(func() { s.sleepI(sp.DemoteDur) })
+		return
+	}
 	o.el.OnPromote(func(ctx context.Context, token string) {
 		s.mu.Lock()
 		o.p++
-		term := &Term{ID: len(s.tr.Terms), Obj: o.idx, Inst: o.in.idx, Token: token, Ctx: ctx, EnterT: s.now()}
+		term := &Term{ID: len(s.tr.Terms), Obj: o.idx, Inst: o.in.idx, Token: token, Ctx: ctx, EnterT: s.now(), CtxDoneAtEntry: ctx.Err() != nil}
 		term.EnterSeq = s.nextSeq()
 		s.tr.Terms = append(s.tr.Terms, term)
 		s.tr.CBs = append(s.tr.CBs, &CB{Seq: term.EnterSeq, T: term.EnterT, Obj: o.idx, Inst: o.in.idx, Kind: "promote-enter", Token: token, Term: term.ID, Gid: gid()})
@@ -467,45 +490,11 @@ func (s *Sim) doAction(a *Action) {
 		if o == nil || o.conn == nil {
 			return
 		}
-		s.mu.Lock()
-		dispatch := o.dispatch
-		s.mu.Unlock()
-		if dispatch == nil {
-			return
-		}
-		s.mu.Lock()
-		n := &NotifRec{Seq: s.nextSeq(), T: s.now(), Obj: o.idx, Inst: o.in.idx, Kind: a.Kind, DoneSeq: -1, WasLeader: o.el.IsLeader(), TokenAt: o.el.Token()}
-		s.tr.Notifs = append(s.tr.Notifs, n)
-		s.mu.Unlock()
-		kind := a.Kind
-		select {
-		case dispatch <- func() {
-			var h nats.ConnHandler
-			switch kind {
-			case ActDisconnect:
-				h = disconnectedCB(o.conn)
-			case ActReconnect:
-				h = o.conn.ReconnectHandler()
-			case ActClosed:
-				h = o.conn.ClosedHandler()
-			}
-			if h != nil {
-				s.mu.Lock()
-				// the leadership the handler sees is the one at dispatch, not at enqueue
-				n.WasLeader = o.el.IsLeader()
-				n.TokenAt = o.el.Token()
-				n.T = s.now()
-				n.Seq = s.nextSeq()
-				s.mu.Unlock()
-				h(o.conn)
-				s.mu.Lock()
-				n.Delivered = true
-				n.DoneSeq = s.nextSeq()
-				n.DoneT = s.now()
-				s.mu.Unlock()
-			}
-		}:
-		default:
+		// a.Then: further notifications queued behind the first one without a pause, as the client's
+		// callback goroutine delivers a burst (flapping connection): handler k+1 starts as soon as
+		// handler k has returned
+		for _, kind := range append([]string{a.Kind}, a.Then...) {
+			s.notify(o, kind)
 		}
 	case ActExtPut, ActExtDelete:
 		s.extWrite(a)
@@ -542,12 +531,64 @@ func (s *Sim) doAction(a *Action) {
 			c()
 			s.apiEnd(o, r, true, nil)
 		}
+	case ActCloseWatch:
+		s.mu.Lock()
+		for _, lw := range s.watchers {
+			if lw.l.o.in.idx == a.Inst && lw.kill() {
+				s.tr.WatchCloses = append(s.tr.WatchCloses, &WatchClose{Seq: s.nextSeq(), T: s.now(), Obj: lw.l.o.idx, Inst: a.Inst, WatchID: lw.id})
+			}
+		}
+		s.mu.Unlock()
 	case ActSetHandler:
 		o := s.current(a.Inst)
 		if o == nil {
 			return
 		}
 		s.registerCallbacks(o)
+	}
+}
+
+// notify queues one connection notification for the object's callback dispatcher (one goroutine per
+// connection, callbacks in order, like nats.go's asynchronous callback handler).
+func (s *Sim) notify(o *objRT, kind string) {
+	s.mu.Lock()
+	dispatch := o.dispatch
+	s.mu.Unlock()
+	if dispatch == nil {
+		return
+	}
+	s.mu.Lock()
+	n := &NotifRec{Seq: s.nextSeq(), T: s.now(), Obj: o.idx, Inst: o.in.idx, Kind: kind, DoneSeq: -1, WasLeader: o.el.IsLeader(), TokenAt: o.el.Token()}
+	s.tr.Notifs = append(s.tr.Notifs, n)
+	s.mu.Unlock()
+	select {
+	case dispatch <- func() {
+		var h nats.ConnHandler
+		switch kind {
+		case ActDisconnect:
+			h = disconnectedCB(o.conn)
+		case ActReconnect:
+			h = o.conn.ReconnectHandler()
+		case ActClosed:
+			h = o.conn.ClosedHandler()
+		}
+		if h != nil {
+			s.mu.Lock()
+			// the leadership the handler sees is the one at dispatch, not at enqueue
+			n.WasLeader = o.el.IsLeader()
+			n.TokenAt = o.el.Token()
+			n.T = s.now()
+			n.Seq = s.nextSeq()
+			s.mu.Unlock()
+			h(o.conn)
+			s.mu.Lock()
+			n.Delivered = true
+			n.DoneSeq = s.nextSeq()
+			n.DoneT = s.now()
+			s.mu.Unlock()
+		}
+	}:
+	default:
 	}
 }
 
@@ -638,9 +679,9 @@ func Run(t *testing.T, p *Plan) *Trace {
 	caseBegin()
 	defer caseEnd()
 	runBubble(t, func() {
-		s := &Sim{plan: p, tr: tr, t0: time.Now(), teardownCh: make(chan struct{})}
+		s := &Sim{plan: p, tr: tr, t0: time.Now(), teardownCh: make(chan struct{}), lean: p.Lean}
 		tr.StartAt = s.t0
-		s.store = refkv.New(p.TTL, time.Now)
+		s.store = refkv.New(p.StoreTTL(), time.Now)
 		for i := range p.Instances {
 			s.insts = append(s.insts, &instRT{s: s, idx: i, spec: &p.Instances[i], opCount: map[string]int{}, startSem: make(chan struct{}, 1)})
 		}
@@ -767,6 +808,12 @@ func (s *Sim) teardown() {
 }
 
 func (s *Sim) dice() float64 {
+	if s.lean {
+		if n := len(s.plan.Dice); n > 0 {
+			return s.plan.Dice[int(gid()%uint64(n))]
+		}
+		return 0.5
+	}
 	s.mu.Lock()
 	defer s.mu.Unlock()
 	v := 0.5
@@ -818,9 +865,19 @@ func (s *Sim) startHammer(h *Hammer) {
 		go func(g int) {
 			defer s.wg.Done()
 			s.sleepI(h.From + time.Duration(g))
-			n := 0
+			n, calls := 0, 0
+			defer func() {
+				s.mu.Lock()
+				s.tr.HammerCalls += calls
+				s.mu.Unlock()
+			}()
 			for s.now() < h.To && !s.tearing.Load() && n < 400 {
-				o := s.current(h.Inst)
+				var o *objRT
+				if s.lean {
+					o = s.insts[h.Inst].curObj.Load()
+				} else {
+					o = s.current(h.Inst)
+				}
 				if o != nil && len(h.Calls) > 0 {
 					switch h.Calls[(n+g)%len(h.Calls)] {
 					case "isleader":
@@ -842,9 +899,7 @@ func (s *Sim) startHammer(h *Hammer) {
 					case "register":
 						s.registerCallbacks(o)
 					}
-					s.mu.Lock()
-					s.tr.HammerCalls++
-					s.mu.Unlock()
+					calls++
 				}
 				n++
 				s.sleepI(h.Gap)
